@@ -1,0 +1,46 @@
+//go:build verif && !nocontpool
+// +build verif,!nocontpool
+
+package runtime
+
+// Verification hooks (build tag verif): drive private continuation pools from
+// a correspondence harness.  A separate pool instance is used, no Runtime is
+// touched.
+
+// VerifLuaContPool wraps a private luaContPool and names continuations by small
+// integers in order of first appearance.
+type VerifLuaContPool struct {
+	p     luaContPool
+	ids   map[*LuaCont]int
+	conts map[int]*LuaCont
+}
+
+func VerifNewLuaContPool() *VerifLuaContPool {
+	return &VerifLuaContPool{ids: map[*LuaCont]int{}, conts: map[int]*LuaCont{}}
+}
+
+// VerifLuaContPoolSize is the capacity of the pool.
+const VerifLuaContPoolSize = luaContPoolSize
+
+// Get calls luaContPool.get; reports the identity and whether the continuation is zeroed.
+func (v *VerifLuaContPool) Get() (id int, zeroed bool) {
+	c := v.p.get()
+	id, ok := v.ids[c]
+	if !ok {
+		id = len(v.ids) + 1
+		v.ids[c] = id
+		v.conts[id] = c
+	}
+	zeroed = c.Closure == nil && c.registers == nil && c.cells == nil && c.pc == 0 && c.acc == nil && c.running == false
+	// dirty it, as the VM would
+	c.pc = int16(id)
+	c.running = true
+	return id, zeroed
+}
+
+// Release calls luaContPool.release.
+func (v *VerifLuaContPool) Release(id int) {
+	if c, ok := v.conts[id]; ok {
+		v.p.release(c)
+	}
+}
